@@ -40,7 +40,7 @@ def run(ctx):
         jobs.append({"id": len(jobs), "src": "@use \"sass:map\";\n$a: %s;\n$b: %s;\nx { eq: $a == $b; ne: $a != $b; idx: inspect(index(($a,), $b)); "
                                             "has: map-has-key(($a: 1), $b); get: inspect(map-get(($a: v), $b)); rem: length(map-remove(($a: 1), $b)); "
                                             "mrg: length(map-merge(($a: 1), ($b: 2))); val: inspect(map-get(map-merge(($a: 1), ($b: 2)), $a)); "
-                                            "set: length(map.set(($a: 1), $b, 2)); }\n" % (a, b)})
+                                            "set: length(map.set(($a: 1), $b, 2)); midx: inspect(index((k: 1), $b)); }\n" % (a, b)})
         jobs.append({"id": len(jobs), "src": "$m: (%s: 1, %s: 2);\nx { y: length($m); }\n" % (a, b)})
     res = C.run_cases(jobs, PID)
     for k, c in enumerate(pairs):
@@ -49,7 +49,9 @@ def run(ctx):
         x, y = res[2 * k], res[2 * k + 1]
         eq = c["eq"]
         want = {"eq": "true" if eq else "false", "ne": "false" if eq else "true", "idx": "1" if eq else "null", "has": "true" if eq else "false",
-                "get": "v" if eq else "null", "rem": "0" if eq else "1", "mrg": "1" if eq else "2", "val": "2" if eq else "1", "set": "1" if eq else "2"}
+                "get": "v" if eq else "null", "rem": "0" if eq else "1", "mrg": "1" if eq else "2", "val": "2" if eq else "1", "set": "1" if eq else "2",
+                # index() on a map looks at its entries as unbracketed space-separated (key value) lists
+                "midx": "1" if c.get("bclass") == "lk1-space" else "null"}
         why = None
         if x.get("outcome") != "css":
             why = "probe did not compile: %s" % ((x.get("err") or {}).get("message") or x.get("outcome"))
